@@ -740,6 +740,20 @@ def every_child_is_inferred(F, res, rule="Y12"):
     the second walk over the body."""
     from rules import c05
     V = (IC + "infer_expr", IC + "infer_pattern", IC + "infer_stmts", IC + "infer_stmts_iter", IC + "infer_expr_inner", IC + "ty_for_pattern")
+    # helper methods that are handed a child and infer it (infer_same_ty_op(lhs, rhs), infer_comparison(..)): a method of the context
+    # with an expression / pattern / statement parameter that reaches one of the functions above within two calls
+    V = set(V)
+    for _round in range(2):
+        for q, g in sorted(F.fns.items()):
+            if not q.startswith(IC) or "{closure" in q or q in V or not g.blocks:
+                continue
+            tys = [g.local_ty(i) or "" for i in range(2, g.d["arg_count"] + 1)]
+            if not any("Idx<ide::def::module::Expr>" in t_ or "Idx<ide::def::module::Pattern>" in t_ or "Statement" in t_ or "Clause" in t_ for t_ in tys):
+                continue
+            unit = [g] + [F.fns[c] for c in F.closures_of(q) if c in F.fns]
+            if any((callee(t) or "") in V for u in unit for _b, t in u.calls()):
+                V.add(q)
+    V = tuple(sorted(V))
     skips = {k: v for k, v in c05.REVIEWED_SKIPS.items()}
     for fn_name, adt, fl in (("infer_expr_inner", "Expr", 10), ("infer_pattern", "Pattern", 5), ("infer_stmts_iter", "Statement", 3)):
         if IC + fn_name not in F.fns:
